@@ -162,6 +162,7 @@ func runC12(c *mon.Ctx) {
 	// pad returns a document of exactly n bytes (valid message + trailing comment when it fits)
 	// the filler of the trailing comment is plain ASCII, or bytes in a legacy encoding (an XML processor does not
 	// look inside comments; what is accepted as received must be accepted compressed)
+	padWithBlanks := false
 	preferUnsigned := false // a message with almost nothing incompressible in it: the whole stream then deflates at the format's maximum ratio
 	pad := func(kind string, n int64, filler string) (string, bool, string) {
 		order := []bool{true, false}
@@ -170,6 +171,10 @@ func runC12(c *mon.Ctx) {
 		}
 		for _, signed := range order {
 			b := baseDoc(kind, signed)
+			if padWithBlanks && int64(len(b)) <= n {
+				// nothing but white space after the root's end tag: cut anywhere, what remains is still a whole document
+				return b + strings.Repeat(map[bool]string{true: "\n", false: " "}[n%2 == 0], int(n)-len(b)), signed, "valid-message"
+			}
 			if int64(len(b))+7 <= n {
 				return b + "<!--" + strings.Repeat(filler, int(n)-len(b)-7) + "-->", signed, "valid-message"
 			}
@@ -241,8 +246,9 @@ func runC12(c *mon.Ctx) {
 					}
 					filler := []string{"p", "p", "\xe9", "\xff"}[k%4]
 					preferUnsigned = k%3 == 0
+					padWithBlanks = k%5 == 1
 					doc, signed, what := pad(ep.kind, n, filler)
-					preferUnsigned = false
+					preferUnsigned, padWithBlanks = false, false
 					comp := sim.Deflate([]byte(doc), lvl)
 					in := base64.StdEncoding.EncodeToString(comp)
 					raw := base64.StdEncoding.EncodeToString([]byte(doc))
